@@ -356,6 +356,16 @@ fn model(tree: &mut Tree, call: &Call, present: bool, enc: Enc, stats: &mut Stat
                 None => Expect::Unmodelled,
             }
         }
+        // a text is a sequence too: increment(text, i, n) is a valid call when the element at i holds a counter (put there by
+        // put/insert). R3 does not model counters inside text, so where one exists anything goes; where none exists the call
+        // must fail like any increment of a non-counter.
+        (Call::Inc { prop: PropK::Idx(_), .. }, Tree::Text(t)) => {
+            if t.elems.iter().any(|r| r.vals.iter().any(|(_, v)| matches!(v, Val::Scalar(Sv::Counter(_))))) {
+                Expect::Unmodelled
+            } else {
+                Expect::MustErr("increment-of-non-counter")
+            }
+        }
         (Call::Inc { prop, by, .. }, n) => {
             let reg: Option<&mut Reg> = match (prop, n) {
                 (PropK::Key(k), Tree::Map(_, m)) => m.get_mut(k),
